@@ -25,7 +25,7 @@ LEVEL = "exploration"
 RUNS = {"quick": 40000, "thorough": 1000000}
 WALL = {"quick": 240, "thorough": 1500}
 PARTITIONS = [{"name": "default", "env": {}}]
-FAULT_KINDS = ["keep_missed_off", "reorder", "batch_split", "empty_batch", "nan_entry", "merge_partials", "rescale", "invalidate",
+FAULT_KINDS = build.LAYOUT_FAULTS + ["keep_missed_off", "reorder", "batch_split", "empty_batch", "nan_entry", "merge_partials", "rescale", "invalidate",
                "copy", "duplicate_values"]
 RULE = ("one run = 1-4 one-dimensional accumulators over consecutive bins fed in-range values (<= 30 entries, "
         "weights none/int/dyadic/float) by construction, fill and fill_n in seeded chunkings, combined with +, += and "
@@ -107,7 +107,8 @@ def generate(rng, seed, part):
                 m = rng.randint(1, min(8, len(rest) - j))
                 if bulk:
                     m = min(len(rest) - j, rng.choice([50, 2048, 3000, len(rest)]))
-                op = {"op": "fill_n", "n": nodes, "idx": rest[j:j + m], "cont": rng.choice(conts)}
+                op = {"op": "fill_n", "n": nodes, "idx": rest[j:j + m], "cont": rng.choice(conts),
+                      "mem": rng.choice(build.MEM_MODES)}
                 if rng.random() < 0.2:
                     op["nan_at"] = rng.randrange(m + 1)
                 ops.append(op)
@@ -320,7 +321,20 @@ def execute(plan, ctx):
             if cfg.get("vtype", "f64") != "f64" and isinstance(batch, np.ndarray):
                 batch = batch.astype(np.float32 if cfg["vtype"] == "f32" else np.float16)
                 ctx.probe("narrow_float_values")
+            held = []
+            if cfg.get("vtype", "f64") == "f64":
+                (batch, w_), held = build.hand_over(ctx, op.get("mem"), batch, kw.get("weights"))
+                if "weights" in kw:
+                    kw["weights"] = w_
             ok, res = attempt(nd.h.fill_n, batch, **kw)
+            if ok and held and op.get("mem") == "scribble":
+                st0 = repr(nd.h.statistics)
+                from sim.oracle import snap as _snap, snap_diff as _snap_diff
+                build.scribble_check(ctx, nd.h, held, "scribble", _snap, _snap_diff, "C14", "fill_n")
+                if repr(nd.h.statistics) != st0:
+                    ctx.violation("C14/callers-array-untouched", "C14/keeps-callers-buffer/statistics",
+                                  f"the caller overwrote the arrays it had passed to fill_n and the statistics changed "
+                                  f"from {st0} to {nd.h.statistics!r}")
             ctx.ev(op["n"], f"fill_n:{op.get('cont')}", len(idx), "ok" if ok else exc_tag(res))
             ctx.abstract("fill_n", op.get("cont"), min(len(idx), 3), ok)
             if not ok:
